@@ -169,8 +169,10 @@ def make_judges(ctx):
         sample = None
         if ctx.want_sample() and nontriv and len(p.codes) <= 4:
             sample = {'op': ev.op, 'form': form, 'format': R.dtype_fxp(*p.fmt()), 'codes': [str(k) for k in p.codes], 'rendered': got}
-        ctx.judged(('render', form, G.word_class(p.n_word), G.frac_class(p.n_word, p.n_frac), tuple(cc), len(p.shape)), nontriv, sample, elements=len(p.codes))
+        ctx.judged(('render', form, bool(ev.op == 'bin' and prefix), G.word_class(p.n_word), G.frac_class(p.n_word, p.n_frac), tuple(cc), len(p.shape)), nontriv, sample, elements=len(p.codes))
         ctx.floor_hit(('render', form))
+        if form == 'bin.dot' and prefix and p.n_frac in (0, p.n_word):
+            ctx.floor_hit(('render-point-prefix-at-an-end',))
 
     def parse_judge(ev):
         from_bin = False
@@ -267,8 +269,10 @@ def make_judges(ctx):
         nontriv = any(k < 0 for k in codes) or n_word % 4 != 0 or n_frac in (0, n_word)
         ctx.judged(('parse', form, route, 'raw' if raw else 'value', G.word_class(n_word), G.frac_class(n_word, n_frac), tuple(cc), len(shape)), nontriv, None, elements=len(codes))
         ctx.floor_hit(('parse', form, route, 'raw' if raw else 'value'))
-        if isinstance(car, (list, np.ndarray)):
+        if isinstance(car, (list, tuple, np.ndarray)):
             ctx.floor_hit(('parse-container', type(car).__name__, len(shape)))
+        if form == 'bin.dot' and n_frac in (0, n_word):
+            ctx.floor_hit(('parse-point-at-an-end', route))
     def container_judge(ev):
         # the rendered list handed back must still hold the strings afterwards (a caller parses the same rendering more than once)
         if ev.kind == 'method' and ev.op in ('__init__', 'set_val', '__call__', 'from_bin') or ev.kind == 'function' and ev.op == 'from_bin':
@@ -282,6 +286,8 @@ def floors(tier):
     cells += [('parse', f, r, m) for f in ('bin', 'hex') for r in ('constructor', 'call', 'set_val') for m in ('raw', 'value') if not (r == 'call' and m == 'raw')]
     cells += [('parse', 'bin', 'from_bin', 'value'), ('parse', 'bin', 'from_bin', 'raw'), ('parse', 'bin', 'from_bin_function', 'value'), ('parse', 'bin.dot', 'constructor', 'value')]
     cells += [('parse-container', 'list', 1), ('parse-container', 'list', 2), ('parse-container', 'ndarray', 1), ('parse-container', 'ndarray', 2), ('parse-container', 'list-of-arrays', 2)]
+    cells += [('parse-container', 'tuple', 1), ('parse-container', 'tuple', 2), ('parse', 'bin.dot', 'from_bin', 'value'), ('parse', 'bin.dot', 'from_bin_function', 'value'),
+              ('parse-point-at-an-end', 'from_bin'), ('parse-point-at-an-end', 'constructor'), ('render-point-prefix-at-an-end',)]
     cells += [('parse-prefix', pf) for pf in ('b', 'B', '0B', 'x', 'X', '0X', 'h', '0h', 'H', '0H')] + [('render-cfg', 'bin_prefix'), ('render-cfg', 'hex_prefix_none')]
     return cells
 
@@ -389,6 +395,45 @@ def roundtrip(ctx, x, s, w, nf, arrays=True):
         if pre is not None:
             _try(lambda: Fxp(pre, s, w, nf))
             _try(lambda: mk().set_val(pre))
+    # the binary point together with a prefix (argument, prefix=True, configuration), at every position including the two ends
+    # (n_frac = 0: trailing point, n_frac = n_word: leading point), and the pointed strings read back by from_bin
+    bdp = _try(lambda: x.bin(frac_dot=True, prefix='0b'))
+    _try(lambda: x.bin(frac_dot=True, prefix=True))
+    _try(lambda: x.bin(frac_dot=True, prefix=bpf))
+    if xc is not None:
+        _try(lambda: setattr(xc.config, 'bin_prefix', bpf))
+        _try(lambda: xc.bin(frac_dot=True))
+    if w <= 53:
+        for r in (bd, bdp):
+            if r is None:
+                continue
+            _try(lambda: mk().from_bin(fresh(r)))
+            _try(lambda: fm.from_bin(fresh(r), signed=s, n_word=w, n_frac=nf))
+        if bdp is not None:
+            _try(lambda: Fxp(fresh(bdp), s, w, nf))
+            _try(lambda: mk().set_val(fresh(bdp)))
+            _try(lambda: mk()(fresh(bdp)))
+    # renderings of arrays collected in tuples (nested for two dimensions) are carriers like lists
+    def tup(r):
+        r = normalise(r)
+        if isinstance(r, str):
+            return None
+        return tuple(tuple(q) if isinstance(q, list) else q for q in r)
+    for raw in (True, False):
+        if not raw and w > 53:
+            continue
+        for r in (bp, h, b):
+            t = tup(r) if r is not None else None
+            if t is None:
+                continue
+            if r is b:
+                _try(lambda: mk().from_bin(t, raw=raw))
+                _try(lambda: fm.from_bin(t, signed=s, n_word=w, n_frac=nf, raw=raw))
+            else:
+                _try(lambda: Fxp(t, s, w, nf, raw=raw))
+                _try(lambda: mk().set_val(t, raw=raw))
+                if not raw:
+                    _try(lambda: mk()(t))
 
 
 def run_case(case, ctx):
